@@ -163,6 +163,10 @@ pub struct Expected {
     pub zone: Option<Name>,
     /// the request's question name is written with a compression pointer
     pub question_pointer: bool,
+    /// an ordinary QUERY (class IN, not a zone transfer) from a permitted source for a name that a
+    /// configured zone encloses: whatever that zone answers, it is not REFUSED ("REFUSED if no
+    /// configured zone encloses the name or the source address is denied")
+    pub not_refused: bool,
 }
 
 pub const OP_QUERY: u8 = 0;
@@ -188,6 +192,7 @@ pub fn expect(
         qname: None,
         zone: None,
         question_pointer: false,
+        not_refused: false,
     };
     let Ok(h) = wl::parse_header(req) else {
         e.gates.push("short");
@@ -266,6 +271,10 @@ pub fn expect(
         e.rcodes = Some(codes);
         return e;
     }
+    e.not_refused = h.opcode == OP_QUERY
+        && src_access == Access::Allowed
+        && e.zone.is_some()
+        && question.is_some_and(|q| q.qclass == 1 && !matches!(q.qtype, 251 | 252));
     // the zone's own answer: predictable only for the marker queries
     let predictable_q = h.opcode == OP_QUERY
         && question.is_some_and(|q| {
